@@ -8,6 +8,11 @@ CHECKS = {
    note="Trusted: Coq kernel, extraction (ExtrOcamlBasic), OCaml driver, Python harness; model hand-written, tied by bounded differential testing only; alphabet of fidelity 0..255+U+2028+U+3000.",
    technique="Coq proof (induction: greedy scan = InOrder relation) + extracted-model/implementation exhaustive differential correspondence",
    design="5/C06"),
+ 'C05': dict(
+   text="Coq theorems over the model of checker.check_output/normalize: C05_relation (verdict = declarative MatchRel, which embeds the C06 wildcard relation, for ALL texts and all flag settings), C05_identical, C05_strict_exact, C05_nonws_differs, C05_monotone_partial (every leniency is monotone under MonoGuard) and three C05_monotone_refuted_* witnesses showing the monotonicity clause is false of the faithful model outside the guard (finding F7, recorded as known finding, re-evaluated on the real code every run). Tie to the code: each of the 9 normalisation steps compared with the real re/str call on all strings up to length 6-7 over step-specific alphabets, and check_output compared under all 32 flag settings on all small pairs plus seeded structured random pairs.",
+   note="Trusted: Coq kernel, extraction, OCaml driver, harness; per-pattern scanners replace Python's re (validated exhaustively per step, bounded); alphabet of fidelity 0..255+U+2028+U+3000; monotonicity proved only under MonoGuard (NORMALIZE_WHITESPACE/IGNORE_WHITESPACE with ELLIPSIS on is outside the proved part).",
+   technique="Coq proof (relation equivalence, monotonicity lemmas, vm_compute refutation witnesses) + step-level and whole-relation differential correspondence",
+   design="5/C05"),
 }
 
 NOT_APPLICABLE = {}
